@@ -9,6 +9,7 @@ a result `g : Chain` has `g.start`, `g.nodes` (key ↦ node; `alook k g.nodes` i
 -/
 import CV.Proofs.ChainTop
 import CV.Proofs.ChainCongr
+import CV.Proofs.ChainTotal
 set_option linter.unusedVariables false
 namespace CV.Chain
 
@@ -24,6 +25,28 @@ theorem compile_terminates (es : Entries) (cx : Ctx) :
   cases h : compile es cx with
   | ok g => exact Or.inl ⟨g, rfl⟩
   | error e => exact Or.inr ⟨e, rfl⟩
+
+/-- The model's guard branches are dead: `compile` never answers `Err.internal`. Those branches stand for
+    the places where the Go code would dereference a nil map entry (a `NextNode` or target that does not
+    exist while detecting cycles, flattening, pruning or deciding `Default`) and for the bound
+    `#nodes + 1` on the number of flatten passes, which the Go loop does not have: the graph
+    `assembleChain` builds has unique keys, is closed and entirely reachable from the start node
+    (`assemble_closed`), and once the cycle detector passed, every flatten pass lowers the largest rank
+    of a splitter below a splitter, so the bound is never hit (`flatten_bound_sufficient`). -/
+theorem compile_never_internal (es : Entries) (cx : Ctx) (w : String) : compile es cx ≠ .error (.internal w) := by
+  intro h
+  have := compile_never_internal' es cx _ h
+  simp [Err.isInternal] at this
+
+/-- What `assembleChain` hands to the later passes: unique node keys, the start node, every `NextNode`
+    present, every node reachable from the start node. -/
+theorem assembled_graph_closed (es : Entries) (cx : Ctx) (st : St) (start : String)
+    (h : assemble es cx = .ok (st, start)) :
+    (akeys st.nodes).Nodup ∧ start ∈ akeys st.nodes ∧
+    (∀ k n, (k, n) ∈ st.nodes → ∀ m ∈ n.next, m ∈ akeys st.nodes) ∧
+    (∀ k ∈ akeys st.nodes, Reach st.nodes start k) :=
+  let A := assemble_closed es cx st start h
+  ⟨A.nodup, A.has, A.closed, A.reach⟩
 
 /-- The redirect loop never follows a target twice: whenever a target comes back whose ID is already
     in `redirectHistory` (and no memoised node or protocol conflict ends the walk first), the loop
@@ -86,18 +109,17 @@ theorem no_unused_nodes (es : Entries) (cx : Ctx) (g : Chain) (h : compile es cx
 /-- FULL STATEMENT (DESIGN §5 C15), not proved in this form: "a splitter / router reference cycle or a
     redirect cycle *among the entries* reachable from the service makes `compile` return a circular-…
     error". What is proved: (1) below, at the level of the graph `assembleChain` builds from the entries
-    — if that graph has a cycle reachable from the start node, compilation returns an error and the
-    cycle is never followed (missing: the characterisation of the assembled edges in terms of the
-    entries, and that the error is `circularRef` rather than an earlier one); (2)
-    `redirect_revisit_is_error` above for the redirect loop. The entry-level statement is checked on the
-    implementation by the harness monitors `cycles:splitter-cycle-compiled` /
+    — if that graph has a cycle reachable from the start node, compilation returns exactly the
+    circular-reference error and the cycle is never followed (missing: the characterisation of the
+    assembled edges in terms of the entries; if assembly itself fails, the result is that earlier
+    error); (2) `redirect_revisit_is_error` above for the redirect loop. The entry-level statement is
+    checked on the implementation by the harness monitors `cycles:splitter-cycle-compiled` /
     `cycles:redirect-cycle-compiled`. -/
 theorem cycles_are_errors_partial (es : Entries) (cx : Ctx) (st : St) (start k : String)
+    (hreq : ¬ (cx.svc = "" ∨ cx.ns = "" ∨ cx.part = "" ∨ cx.dc = "" ∨ cx.td = ""))
     (ha : assemble es cx = .ok (st, start)) (hr : Reach st.nodes start k) (hc : Reach1 st.nodes k k) :
-    ∃ e, compile es cx = .error e := by
-  apply compileWith_error_of_dfs _ es cx st start ha
-  intro hd
-  exact good_no_cycle st.nodes start k hd hr hc
+    compile es cx = .error .circularRef :=
+  compile_cycle_error es cx st start k hreq ha hr hc
 
 /-! ## deterministic -/
 
@@ -136,11 +158,10 @@ theorem flatten_order_independent_counterexample :
 
 /-! ## writes are validated -/
 
-/-- An accepted write stores exactly the proposed entry, and every chain the store re-checks (the
-    entry's own name, the names of entries that reference it, or every chain for proxy-defaults)
-    compiles against the new content. Contrapositive: a write that would make one of those chains
-    uncompilable is rejected. -/
-theorem write_validated (S S' : Entries) (e : Entry) (h : ensureEntry S e = some S') :
+/-- What the store's validation does establish: an accepted write stores exactly the proposed entry, and
+    every chain the store re-checks (the entry's own name, the names of entries that reference it
+    directly, or every chain for proxy-defaults) compiles against the new content. -/
+theorem write_rechecks_affected (S S' : Entries) (e : Entry) (h : ensureEntry S e = some S') :
     S' = S.put e ∧ ∀ svc ∈ affected S e.kind e.name, compiles S' svc = true := by
   unfold ensureEntry at h
   simp only at h
@@ -149,6 +170,50 @@ theorem write_validated (S S' : Entries) (e : Entry) (h : ensureEntry S e = some
     cases h
     exact ⟨rfl, fun svc hs => List.all_eq_true.mp hall svc hs⟩
   · cases h
+
+/-- FULL STATEMENT `write_validated` — FALSE for the code as it is (kept visible; defect recorded in
+    known_findings.txt, signature `store:accepted-write-breaks-indirect-referrer:proto-mismatch`):
+
+      `∀ S e S', (∀ svc, compiles S svc = true) → ensureEntry S e = some S' → ∀ svc, compiles S' svc = true`
+
+    — "a config entry write that would make ANY affected chain uncompilable is rejected". The store
+    re-checks only the entry's own chain and its *direct* referrers, and a splitter records no protocol
+    of its own: with proxy-defaults http, router c → b, splitter b → d, changing service-defaults d from
+    http to grpc is accepted (chains d and b compile, as grpc) although chain c (http router → … → grpc
+    d) now fails with "inconsistent protocols". -/
+def indirectWitness : Entries :=
+  { routers := [("c", [⟨"/x", { svc := "b" }⟩])]
+    splitters := [("b", [⟨10000, "d", ""⟩])]
+    services := [("d", { proto := "http" })]
+    proxy := some { proto := "http" } }
+
+/-- Kernel-checked core of the counterexample: the write to service-defaults `d` changes what chain `c`
+    is compiled from (its collected service-defaults differ), yet `c` is not among the re-checked chains. -/
+theorem write_validated_counterexample :
+    "c" ∉ affected indirectWitness Kind.service "d" ∧
+    (gather (indirectWitness.put (.service "d" { proto := "grpc" })) "c").services ≠ (gather indirectWitness "c").services := by
+  refine ⟨by decide, ?_⟩
+  simp [gather, indirectWitness, Entries.put, aset, closeOver, alook, routerRelated, splitterRelated, resolverRelated, dflt]
+
+-- The behavioural half as an executable test of the model (`compile` is defined by well-founded
+-- recursion over a measure the kernel cannot evaluate, so this is a `#guard`, not a theorem); the same
+-- write sequence is replayed against the real state store by the harness on every run.
+#guard compiles indirectWitness "b" && compiles indirectWitness "c" && compiles indirectWitness "d"
+#guard (match ensureEntry indirectWitness (.service "d" { proto := "grpc" }) with
+  | some S' => compiles S' "b" && compiles S' "d" && !compiles S' "c"
+  | none => false)
+
+/-- `write_validated_partial`: the full statement holds under the explicit hypothesis that every chain
+    whose inputs the write changes is within the re-checked set (own chain + direct referrers). -/
+theorem write_validated_partial (S S' : Entries) (e : Entry) (h : ensureEntry S e = some S')
+    (hcov : ∀ svc, gather S' svc ≠ gather S svc → svc ∈ affected S e.kind e.name)
+    (hall : ∀ svc, compiles S svc = true) : ∀ svc, compiles S' svc = true := by
+  intro svc
+  by_cases hg : gather S' svc = gather S svc
+  · have := hall svc
+    unfold compiles at this ⊢
+    rw [hg]; exact this
+  · exact (write_rechecks_affected S S' e h).2 svc (hcov svc hg)
 
 /-- the same for deletions -/
 theorem delete_validated (S S' : Entries) (k : Kind) (n : String) (h : deleteEntry S k n = some S')
